@@ -140,6 +140,9 @@ def init (sh : Nat → α) (sl : Nat → Option α) : State α :=
 /-- every process left its loop normally (nobody killed, nobody raised) -/
 def AllDone (N : Nat) (s : State α) : Prop := ∀ w, w < N → s.pc w = .done ∧ s.dead w = false
 
+instance [DecidableEq α] (N : Nat) (s : State α) : Decidable (AllDone N s) := by
+  unfold AllDone; infer_instance
+
 /-! ## serial meaning (what `maxprocs(1)` computes: builtin `range`, no fork) -/
 
 def execI (st : (Nat → α) × (Nat → Option α)) : Instr α → (Nat → α) × (Nat → Option α)
@@ -169,6 +172,17 @@ def Disciplined {α : Type} (code : Nat → List (Instr α)) : Prop := ∀ i, di
 /-- every slot is stored by at most one iteration, and always with the same value -/
 def UniquePuts {α : Type} (code : Nat → List (Instr α)) : Prop :=
   ∀ i j k v v', Instr.put k v ∈ code i → Instr.put k v' ∈ code j → i = j ∧ v = v'
+
+/-! ## two concrete configurations used by the non-vacuity / counter-model theorems -/
+
+/-- `numpy.add(v0, 1, out=v0)` without its lock -/
+def cexCode : Nat → List (Instr Int) := fun _ => [.rmw 0 1]
+/-- both workers claim an iteration, both read `v0`, both write -/
+def cexSched : List Ev := ([0,0,0,0, 1,1,1,1, 0,1,0,1, 0,0,0,0, 1,1,1,1] : List Nat).map Ev.step
+/-- `with lock0: numpy.add(v0, i+1, out=v0)` -/
+def okCode : Nat → List (Instr Int) := fun i => [.tau, .acq 0, .rmw 0 (i + 1), .rel 0]
+/-- round robin between two workers, 45 events -/
+def okSched : List Ev := ((List.range 45).map fun i => i % 2).map Ev.step
 
 /-! ## `_fork` / `_wait` outcome logic -/
 
@@ -302,5 +316,236 @@ inductive Path {α : Type} : List BStmt → List (Instr α) → Prop where
   | withLock {r c b cb} (l : Nat) : Path b cb → Path r c → Path (.withLock l b :: r) (.acq l :: (cb ++ .rel l :: c))
   | skip {r c b} : Path r c → Path (.block b :: r) c
   | iter {r c b cb} : Path b cb → Path (.block b :: r) c → Path (.block b :: r) (cb ++ c)
+
+/-! ## from the syntactic description of a script to loop bodies
+
+The harness parses a generated script (or the source of `Topology._locate`) with Python's `ast` and sends a
+purely syntactic description: per statement the names read / assigned / mutated and the syntactic form of
+right-hand sides.  Everything that is a *decision* happens here: which arrays are shared allocations, which
+variables may alias them (`roots`), which arrays are mutated inside the parallel loop, and the classification of
+every in-loop statement into a `BStmt`, on which `lockOK` is then decided. -/
+
+inductive RhsKind where
+  | shalloc   -- `parallel.shempty(..)` / `parallel.shzeros(..)`
+  | lock      -- `multiprocessing.Lock()`
+  | fresh     -- an expression that certainly creates a new object (arithmetic, `numpy.empty`, …)
+  | view      -- anything else: may alias the arrays it reads
+deriving Repr, DecidableEq
+
+inductive SStmt where
+  | assign (lhs : String) (kind : RhsKind) (reads : List String)
+  /-- in-place modification of (a view of) `base`; `acc` = commutative accumulation (`numpy.add(x, y, out=x)`, `numpy.add.at`, `+=`);
+  `index` = names occurring in subscripts of the target expression -/
+  | mutate (acc : Bool) (base index reads : List String)
+  | other (reads : List String)
+  | withLock (lock : String) (body : List SStmt)
+  /-- `with parallel.ctxrange(..) as v:` -/
+  | par (binds reads : List String) (body : List SStmt)
+  /-- `for` / `while` / `if` / `try` / other `with` -/
+  | block (binds reads : List String) (body : List SStmt)
+  | unknown
+deriving Repr
+
+structure VarInfo where
+  name : String
+  /-- assigned outside the parallel loop that is being analysed -/
+  outer : Bool
+  shared : Bool
+  isLock : Bool
+  /-- allocation sites this variable may be a view of -/
+  roots : List String
+deriving Repr
+
+abbrev Env := List VarInfo
+
+def Env.get (e : Env) (x : String) : Option VarInfo := e.find? (·.name == x)
+
+/-- allocation sites a list of names may alias; an unknown name (global constant, parameter) is its own site -/
+def rootsOf (e : Env) (xs : List String) : List String :=
+  (xs.flatMap fun x => match e.get x with
+    | some i => if i.isLock then [] else i.roots
+    | none => [x]).eraseDups
+
+def isOuter (e : Env) (r : String) : Bool :=
+  match e.get r with
+  | some i => i.outer
+  | none => true
+
+def isShared (e : Env) (r : String) : Bool :=
+  match e.get r with
+  | some i => i.shared
+  | none => false
+
+def bindVar (outer : Bool) (e : Env) (lhs : String) (kind : RhsKind) (reads : List String) : Env :=
+  match kind with
+  | .shalloc => { name := lhs, outer, shared := true, isLock := false, roots := [lhs] } :: e
+  | .lock => { name := lhs, outer, shared := false, isLock := true, roots := [] } :: e
+  | .fresh => { name := lhs, outer, shared := false, isLock := false, roots := [lhs] } :: e
+  | .view =>
+    let rs := rootsOf e (reads.filter fun x => (e.get x).isSome)
+    { name := lhs, outer, shared := false, isLock := false, roots := if rs.isEmpty then [lhs] else rs } :: e
+
+def bindFresh (outer : Bool) (e : Env) (xs : List String) : Env :=
+  xs.foldl (fun e x => bindVar outer e x .fresh []) e
+
+/-- trailing decimal digits of a name: `v12` ↦ 12, `lock12` ↦ 12 (the generator pairs `lock<k>` with `v<k>`) -/
+def trailingNat (s : String) : Option Nat :=
+  let ds := (s.toList.reverse.takeWhile Char.isDigit).reverse
+  if ds.isEmpty then none else (String.ofList ds).toNat?
+
+def arrayId (r : String) : Nat :=
+  match trailingNat r with
+  | some k => if r == "v" ++ toString k then k else 1000000 + r.length + k
+  | none => 2000000 + r.length
+
+def lockId (l : String) : Nat :=
+  match trailingNat l with
+  | some k => if l == "lock" ++ toString k then k else 3000000 + l.length + k
+  | none => 4000000 + l.length
+
+/-- reason codes of `BStmt.bad` -/
+def badNotShared := 1      -- array assigned outside the parallel loop, mutated inside, neither a shared allocation nor a per-iteration scratch buffer
+def badNonCommutative := 2 -- whole-array update of a shared array inside the loop that is not an accumulation
+def badRebind := 3         -- a variable of the enclosing scope is re-assigned inside the loop
+def badRacyRead := 4       -- read of a shared array that is mutated inside the same loop
+def badLock := 5           -- `with x:` where x is not a lock created before the fork
+def badAlias := 6          -- target may alias several outer arrays
+def badScratchLive := 7    -- a process-local scratch buffer that is written in the loop is read after the loop
+def badUnknown := 9        -- unclassified statement
+
+mutual
+  /-- pass 1 over a parallel loop body: the outer allocation sites that are mutated somewhere inside -/
+  def mutS (e : Env) : SStmt → Env × List String
+    | .assign lhs kind reads => (bindVar false e lhs kind reads, [])
+    | .mutate _ base _ _ => (e, (rootsOf e base).filter (isOuter e))
+    | .other _ => (e, [])
+    | .withLock _ body => mutL e body
+    | .par binds _ body => mutL (bindFresh false e binds) body
+    | .block binds _ body => mutL (bindFresh false e binds) body
+    | .unknown => (e, [])
+  def mutL (e : Env) : List SStmt → Env × List String
+    | [] => (e, [])
+    | s :: r =>
+      let (e1, m1) := mutS e s
+      let (e2, m2) := mutL e1 r
+      (e2, m1 ++ m2)
+end
+
+/-- does a statement reading `reads` look at a shared array that is mutated in this loop (other than its own target `own`)? -/
+def racyRead (e : Env) (muts : List String) (own : List String) (reads : List String) : Bool :=
+  (rootsOf e (reads.filter fun x => (e.get x).isSome)).any fun r => isOuter e r && isShared e r && muts.contains r && !own.contains r
+
+mutual
+  /-- pass 2: classification of the statements of a parallel loop body (`muts` from pass 1, `scratch` = declared
+  process-local scratch objects) -/
+  def clsS (muts scratch : List String) (e : Env) : SStmt → Env × List BStmt
+    | .assign lhs kind reads =>
+      let bad := match e.get lhs with
+        | some i => i.outer
+        | none => false
+      (bindVar false e lhs kind reads,
+       [if bad then .bad badRebind else if racyRead e muts [] reads then .bad badRacyRead else .plain])
+    | .mutate acc base index reads =>
+      let outerRoots := ((rootsOf e base).filter (isOuter e)).filter fun r => !scratch.contains r
+      let b : BStmt :=
+        match outerRoots with
+        | [] => if racyRead e muts [] (index ++ reads) then .bad badRacyRead else .plain
+        | [r] =>
+          if !isShared e r then .bad badNotShared
+          else if racyRead e muts [r] (index ++ reads) then .bad badRacyRead
+          else if index.any (fun x => match e.get x with
+              | some i => !i.outer
+              | none => false) then .slot
+          else if acc then .accum (arrayId r)
+          else .bad badNonCommutative
+        | _ => .bad badAlias
+      (e, [b])
+    | .other reads => (e, [if racyRead e muts [] reads then .bad badRacyRead else .plain])
+    | .withLock l body =>
+      let ok := match e.get l with
+        | some i => i.isLock && i.outer
+        | none => false
+      let (e1, b) := clsL muts scratch e body
+      (e1, if ok then [.withLock (lockId l) b] else [.bad badLock, .block b])
+    | .par binds reads body =>
+      let (e1, b) := clsL muts scratch (bindFresh false e binds) body
+      (e1, [if racyRead e muts [] reads then .bad badRacyRead else .plain, .block b])
+    | .block binds reads body =>
+      let (e1, b) := clsL muts scratch (bindFresh false e binds) body
+      (e1, [if racyRead e muts [] reads then .bad badRacyRead else .plain, .block b])
+    | .unknown => (e, [.bad badUnknown])
+  def clsL (muts scratch : List String) (e : Env) : List SStmt → Env × List BStmt
+    | [] => (e, [])
+    | s :: r =>
+      let (e1, b1) := clsS muts scratch e s
+      let (e2, b2) := clsL muts scratch e1 r
+      (e2, b1 ++ b2)
+end
+
+def mentions (e : Env) (r : String) (xs : List String) : Bool := (rootsOf e xs).contains r
+
+mutual
+  /-- `initS e r depth st`: `none` if `st` does not mention array `r`; otherwise `some ok`, where `ok` tells whether this
+  first mention is an unconditional overwrite of the whole array (`r.fill(..)`, `numpy.copyto(r, ..)`), i.e. `r` is a
+  scratch buffer that every iteration initialises before use.  `depth` = number of enclosing blocks (the loop itself is 1). -/
+  def initS (e : Env) (r : String) (depth : Nat) : SStmt → Option Bool
+    | .assign _ _ reads => if mentions e r reads then some false else none
+    | .mutate acc base index reads =>
+      if mentions e r (index ++ reads) then some false
+      else if mentions e r base then some (!acc && base == [r] && index.isEmpty && depth ≤ 1)
+      else none
+    | .other reads => if mentions e r reads then some false else none
+    | .withLock _ body => initL e r depth body
+    | .par _ reads body => if mentions e r reads then some false else initL e r (depth + 1) body
+    | .block _ reads body => if mentions e r reads then some false else initL e r (depth + 1) body
+    | .unknown => some false
+  def initL (e : Env) (r : String) (depth : Nat) : List SStmt → Option Bool
+    | [] => none
+    | s :: rest =>
+      match initS e r depth s with
+      | some b => some b
+      | none => initL e r depth rest
+end
+
+/-- state of the walk over the statements outside the parallel loops -/
+structure TopState where
+  env : Env
+  /-- scratch buffers written inside an earlier parallel loop: must not be read any more -/
+  pending : List String
+
+def liveCheck (st : TopState) (xs : List String) : List (List BStmt) :=
+  if st.pending.any (fun r => mentions st.env r xs) then [[.bad badScratchLive]] else []
+
+mutual
+  /-- the statements outside any parallel loop: collects the classified body of every `with parallel.ctxrange` -/
+  def topS (scratch : List String) (st : TopState) : SStmt → TopState × List (List BStmt)
+    | .assign lhs kind reads => ({ st with env := bindVar true st.env lhs kind reads }, liveCheck st reads)
+    | .mutate _ base index reads => (st, liveCheck st (base ++ index ++ reads))
+    | .other reads => (st, liveCheck st reads)
+    | .withLock _ body => topL scratch st body
+    | .par binds reads body =>
+      let e0 := bindFresh false st.env binds
+      let (e1, m) := mutL e0 body
+      let m := m.eraseDups
+      let scr := (m.filter fun r => !isShared e0 r).filter fun r => initL e1 r 0 body == some true
+      let (_, b) := clsL m (scratch ++ scr) e0 body
+      ({ st with pending := st.pending ++ scr }, liveCheck st reads ++ [b])
+    | .block binds reads body =>
+      let (st1, b) := topL scratch { st with env := bindFresh true st.env binds } body
+      (st1, liveCheck st reads ++ b)
+    | .unknown => (st, [[.bad badUnknown]])
+  def topL (scratch : List String) (st : TopState) : List SStmt → TopState × List (List BStmt)
+    | [] => (st, [])
+    | s :: r =>
+      let (st1, b1) := topS scratch st s
+      let (st2, b2) := topL scratch st1 r
+      (st2, b1 ++ b2)
+end
+
+/-- all parallel loop bodies of a script, classified -/
+def loopBodies (scratch : List String) (script : List SStmt) : List (List BStmt) := (topL scratch ⟨[], []⟩ script).2
+
+/-- the static verdict for a script: every parallel loop body passes `lockOK` -/
+def scriptOK (scratch : List String) (script : List SStmt) : Bool := (loopBodies scratch script).all lockOK
 
 end NutilsVerif.C16
